@@ -3,13 +3,14 @@ import re
 
 
 class ConnOnly:
-    """independent evaluator for an alternative that restricts the connection only (`B:`, `B: *`): the message is on an object of
-    the connection named so (messages on objects never seen created are filed under `unknown` by the tool)"""
+    """independent evaluator for an alternative that restricts the connection only (`B:`, `B: *`): the message arrived on the
+    connection named so"""
     def __init__(self, name):
         self.name = name
 
     def matches(self, msg):
-        c = msg.obj.connection
+        # the connection the message arrived on (an object never seen created does not know its connection; the message does)
+        c = msg.obj.connection if msg.obj.connection is not None else getattr(msg, 'connection', None)
         return (c.name() if c is not None else 'unknown') == self.name
 
     def always(self):
